@@ -338,6 +338,28 @@ def check_C19(ctx):
                 '; non-trivial = the parameter set is not the default one (all are)', nontrivial=lambda s, es: True)
     vt.write_evidence(ctx, 'model_checking', ctx_rule(ctx), exhaustive=True)
 
+def check_C11(ctx):
+    vt.tlc_design(ctx, 'Alloc', cfg='Alloc_q.cfg' if ctx.quick() else 'Alloc.cfg', timeout=900,
+                  label='identifier allocators: every interleaving of concurrent fetch-and-add callers from bases at wrap-around')
+    vt.tlc_design(ctx, 'MatcherMC', label='matchers: C11_Design - a concurrent run never matches a genuine reply to another run')
+    scen = vt.tlc_generate(ctx, 'GenRun', 'C11', 0)
+    if ctx.quick():
+        mixes = [s for s in scen if '/mix/' in s['id']]
+        keep = set(x['id'] for x in mixes[ctx.seed % 3::3])
+        scen = [s for s in scen if '/mix/' not in s['id'] or s['id'] in keep]
+    wire_family(ctx, 'C11', scen, RUN_RULE % 'C11All (a request with 3 runs + e2e probes; mixes of concurrent requests of different protocols to one target; '
+                'allocator bases at wrap-around; reply interleavings; concurrent allocator callers)' +
+                '; the oracle is: every reported run equals the design prediction for ONE wire run (its result alone); non-trivial = more than one flow on the wire',
+                nontrivial=lambda s, es: len({e.get('flow') for e in es if e['event'] == 'Send'}) > 1 or s.get('kind') == 'alloc')
+    vt.write_evidence(ctx, 'model_checking', ctx_rule(ctx), exhaustive=not ctx.quick())
+
+def check_C20(ctx):
+    vt.tlc_design(ctx, 'TcpPolicy', label='method x capability x injected failure: code path = policy')
+    scen = vt.tlc_generate(ctx, 'GenRun', 'C20', 0)
+    wire_family(ctx, 'C20', scen, RUN_RULE % 'C20All (method x target capability x injected non-capability failure, with and without e2e probes)' +
+                '; non-trivial = every case (108 distinct)', nontrivial=lambda s, es: True)
+    vt.write_evidence(ctx, 'model_checking', ctx_rule(ctx), exhaustive=True)
+
 def check_C07(ctx):
     cfgs = ['EngineParallelMC.cfg', 'EngineParallelMC_faults.cfg']
     if not ctx.quick():
@@ -346,7 +368,7 @@ def check_C07(ctx):
     vt.write_evidence(ctx, 'model_checking', ctx_rule(ctx), exhaustive=True)
 
 CHECKS = {
-    'C01': check_C01, 'C02': check_C02, 'C03': check_C03, 'C04': check_C04, 'C05': check_C05, 'C06': check_C06, 'C07': check_C07, 'C08': check_C08, 'C09': check_C09, 'C10': check_C10, 'C15': check_C15, 'C19': check_C19,
+    'C01': check_C01, 'C02': check_C02, 'C03': check_C03, 'C04': check_C04, 'C05': check_C05, 'C06': check_C06, 'C07': check_C07, 'C08': check_C08, 'C09': check_C09, 'C10': check_C10, 'C11': check_C11, 'C15': check_C15, 'C20': check_C20, 'C19': check_C19,
 }
 
 def replay(ctx, path):
